@@ -687,6 +687,11 @@ def build(spec):
         return raw
     if mode == "decoded":
         return xarray.decode_cf(raw)
+    if mode == "dask":
+        # CF-decoded and split into dask chunks (what open_mfdataset / chunks= gives a user)
+        size = spec.get("chunks", 2)
+        decoded = xarray.decode_cf(raw)
+        return decoded.chunk({d: size for d in decoded.dims})
     if mode == "netcdf":
         with scratch_dir() as tmp:
             path = os.path.join(tmp, "case.nc")
